@@ -30,6 +30,10 @@ def generate(ctx, n_well, n_perm, per_defect):
         defs.append((f"w{i}", d, "well-formed", None))
         for j in range(n_perm):
             defs.append((f"w{i}p{j}", defgen.permuted(rng, d), "permuted", f"w{i}"))
+    if n_well:
+        d = defgen.special_literals(k); k += 1
+        defs.append(("wlit", d, "well-formed", None))
+        defs.append(("wlitp0", defgen.permuted(rng, d), "permuted", "wlit"))
     for df in defgen.DEFECTS:
         for j in range(per_defect):
             defs.append((f"x_{df}_{j}", defgen.malformed(rng, 1000 + k, df), "malformed", df)); k += 1
